@@ -14,6 +14,7 @@
 //!   kt flags proto alg pk        ds dalg owner flags proto alg pk
 //!   lc owner                     wce labels owner
 //!   rsa min_len pk   renc e n   ksz alg pk      (public key field parsing)
+//!   so nops {I owner type u data | E k {owner type u data}*k}   (SortedRecords entry points)
 //! names are uncompressed wire format in hex, crdata is the canonical RDATA.
 use bytes::Bytes;
 use domain::base::iana::{DigestAlgorithm, Rtype, SecurityAlgorithm};
@@ -426,6 +427,12 @@ fn run_rrset(out: &mut Out, r: &mut Rng, cx: &mut Ctx, idx: u64) {
     let mut owner = gen_name(r, 3, 60);
     if r.chance(3, 10) { owner.insert(0, b"*".to_vec()); }
     owner.extend(apex.iter().cloned());
+    // asterisk labels that are not the leftmost label are ordinary labels (RFC 4034 3.1.3, RFC 4592 2.1.1)
+    if idx % 29 == 3 {
+        apex = vec![b"example".to_vec()];
+        owner = match r.below(4) { 0 => vec![b"a".to_vec(), b"*".to_vec()], 1 => vec![b"*".to_vec(), b"*".to_vec()], 2 => vec![b"*".to_vec(), b"b".to_vec(), b"*".to_vec()], _ => vec![b"x".to_vec(), b"**".to_vec(), b"*".to_vec()] };
+        owner.extend(apex.iter().cloned());
+    }
     // boundary shape: the deepest names there are (127 one-octet labels = 255 octets)
     if idx % 23 == 5 {
         let k = *r.pick(&[125usize, 126, 127]);
@@ -912,6 +919,22 @@ fn run_key_parsing(out: &mut Out, r: &mut Rng) {
         Ok(res) => {
             let obs = match &res { Ok((e, n)) => format!("Ok {} {}", hex(e), hex(n)), Err(AlgorithmError::Unsupported) => "Err unsupported".into(), Err(_) => "Err invalid".into() };
             out.case(&c, &obs, res.is_ok(), "rsa_parse");
+            // RFC 3110 section 2 written out here: exponent length in one octet (1..255) or 0 + two octets
+            // (256..65535); exponent and modulus each 1..=512 octets (4096 bits) without a leading zero
+            let want: Result<(Vec<u8>, Vec<u8>), &str> = (|| {
+                let (el, rest): (usize, &[u8]) = match pk.first() {
+                    None => return Err("invalid"),
+                    Some(0) => { if pk.len() < 3 || pk[1] == 0 { return Err("invalid"); } (((pk[1] as usize) << 8) | pk[2] as usize, &pk[3..]) }
+                    Some(&l) => (l as usize, &pk[1..]),
+                };
+                if rest.len() < el { return Err("invalid"); }
+                let (e, n) = rest.split_at(el);
+                for part in [e, n] { if part.is_empty() || part.len() > 512 || part[0] == 0 { return Err("invalid"); } }
+                if n.len() < min_len { return Err("unsupported"); }
+                Ok((e.to_vec(), n.to_vec()))
+            })();
+            let want_obs = match &want { Ok((e, n)) => format!("Ok {} {}", hex(e), hex(n)), Err(w) => format!("Err {}", w) };
+            out.check(obs == want_obs, "rsa_parse_wrong", &c, &format!("have {} want {}", &obs[..obs.len().min(40)], &want_obs[..want_obs.len().min(40)]));
             if let Ok((e, n)) = &res {
                 // RFC 3110 section 2 and the round trip through the encoder
                 let good = |x: &Vec<u8>| !x.is_empty() && x.len() <= 512 && x[0] != 0;
@@ -932,6 +955,24 @@ fn run_key_parsing(out: &mut Out, r: &mut Rng) {
             Err(p) => { out.case(&c, "Panic", false, "rsa_encode"); out.check(false, "panic_rsa_encode", &c, &p); }
         }
     }
+    {
+        // a well-formed RSA key of at least 1024 bits must be taken as a key: a wrong signature then is BadSig,
+        // and only a malformed or too short key is InvalidData / Unsupported
+        let key8 = Dnskey::new(256, 3, SecurityAlgorithm::RSASHA256, pk.clone()).unwrap();
+        if let Ok(parsed) = catch_mut(|| rsa_exponent_modulus(&key8, 0)) {
+            let wellformed = { let good = |x: &[u8]| !x.is_empty() && x.len() <= 512 && x[0] != 0;
+                match pk.first() { Some(0) if pk.len() >= 3 && pk[1] != 0 => { let el = ((pk[1] as usize) << 8) | pk[2] as usize; pk.len() >= 3 + el && good(&pk[3..3 + el]) && good(&pk[3 + el..]) && pk.len() - 3 - el >= 128 }
+                                   Some(&l) if l != 0 => { let el = l as usize; pk.len() >= 1 + el && good(&pk[1..1 + el]) && good(&pk[1 + el..]) && pk.len() - 1 - el >= 128 } _ => false } };
+            let f = SigF { tc: 1, alg: 8, labels: 0, ottl: 0, exp: 0, inc: 0, kt: 0, signer: vec![] };
+            let sig = mk_sig(&f, &vec![1u8; 64]);
+            let s2 = sig.clone(); let k2 = key8.clone();
+            if let Ok(v) = catch_mut(move || s2.verify_signed_data(&k2, &vec![0u8; 10])) {
+                let c = format!("rsa-verify {}", hex(&pk));
+                if wellformed { out.check(v == Err(AlgorithmError::BadSig), "wellformed_rsa_key_refused", &c, &format!("{:?} (parse {:?})", v, parsed.is_ok())); }
+                else { out.check(v.is_err() && v != Err(AlgorithmError::BadSig) || !parsed.is_ok() || v.is_err(), "tamper_accepted_malformed_key", &c, &format!("{:?}", v)); }
+            }
+        }
+    }
     for alg in [*r.pick(&[5u8, 7, 8, 10]), *r.pick(&[13u8, 14, 15, 16, 1, 253, 3])] {
         let key = Dnskey::new(256, 3, SecurityAlgorithm::from_int(alg), pk.clone()).unwrap();
         let c = format!("ksz {} {}", alg, hex(&pk));
@@ -946,6 +987,19 @@ fn run_key_parsing(out: &mut Out, r: &mut Rng) {
                 if let (true, Ok((_, n))) = (matches!(alg, 5 | 7 | 8 | 10), rsa_exponent_modulus(&key, 0)) {
                     out.check(res == Ok(n.len() * 8 - n[0].leading_zeros() as usize), "key_size_wrong", &c, &obs);
                 }
+            }
+        }
+        // the algorithm of the RRSIG against the algorithm of the key, before any cryptography (T2 kind va)
+        {
+            let sa = if r.chance(1, 2) { alg } else { *r.pick(&[5u8, 7, 8, 10, 13, 14, 15, 16, 1, 253]) };
+            let f = SigF { tc: 1, alg: sa, labels: 0, ottl: 0, exp: 0, inc: 0, kt: 0, signer: vec![] };
+            let sig = mk_sig(&f, &[7u8; 64]);
+            let k2 = key.clone();
+            if let Ok(v) = catch_mut(move || sig.verify_signed_data(&k2, &vec![1u8, 2, 3])) {
+                let c = format!("va {} {}", sa, alg);
+                let obs = if sa != alg { match v { Err(AlgorithmError::InvalidData) => "Err invalid".to_string(), other => format!("{:?}", other.is_ok()) } } else { "-".to_string() };
+                out.case(&c, &obs, sa != alg, "verify_algorithm_check");
+                out.check(sa == alg || v == Err(AlgorithmError::InvalidData), "tamper_accepted_algorithm", &c, &format!("{:?}", v));
             }
         }
         // verification with such a key: an error, not a panic, never success
@@ -998,6 +1052,128 @@ fn run_period(out: &mut Out, r: &mut Rng) {
     out.case(&case, &obs, true, "sign_period");
 }
 
+/// SortedRecords through every entry point (insert, extend, from_iter, From<Vec>)
+/// in op sequences: the collection must at every point be the canonical sort of
+/// what arrived, without duplicates (computed here independently), and what
+/// sign_sorted_rrset_in makes of its RRsets - it trusts the order - must verify
+fn run_sorted_ops(out: &mut Out, r: &mut Rng, cx: &mut Ctx, idx: u64) {
+    type Sorted = SortedRecords<Name<Bytes>, ZoneRecordData<Bytes, Name<Bytes>>>;
+    let apex: Nm = vec![b"ex".to_vec()];
+    // a small pool: few owners, few types, several records per RRset with close RDATA
+    let mut specs: Vec<Rec> = vec![];
+    let owners: Vec<Nm> = { let mut v = vec![apex.clone()]; for l in [&b"a"[..], &b"www"[..], &b"Zz"[..]] { if r.chance(2, 3) { let mut n = vec![l.to_vec()]; n.extend(apex.iter().cloned()); v.push(n); } } v };
+    for o in &owners {
+        for t in [1u16, 2, 15, 16, 65280] {
+            if !r.chance(1, 2) { continue; }
+            let n = r.range(1, 4);
+            let mut ds: Vec<RData> = vec![];
+            for _ in 0..n {
+                let d = match t { 1 => vec![Part::Raw(vec![192, 0, 2, r.below(6) as u8])], 65280 => vec![Part::Raw(rb(r, 0, 3))], _ => gen_rdata(r, t, &apex) };
+                if !ds.iter().any(|x| raw_canonical(x) == raw_canonical(&d)) { ds.push(d); }
+            }
+            for d in ds { specs.push(Rec { owner: o.clone(), class: 1, ttl: 300, rtype: t, data: d }); }
+        }
+    }
+    if specs.is_empty() { return; }
+    // independent canonical key: owner labels from the right in lower case, type, canonical RDATA
+    let key = |x: &Rec| -> (Vec<Vec<u8>>, u16, Vec<u8>) { let mut o = lower(&x.owner); o.reverse(); (o, x.rtype, raw_canonical(&x.data)) };
+    let mut asc: Vec<Rec> = specs.clone();
+    asc.sort_by(|a, b| key(a).cmp(&key(b)));
+    // ---- the arrival sequence
+    enum Op { Insert(Rec), Extend(Vec<Rec>), FromVec(Vec<Rec>), FromIter(Vec<Rec>) }
+    let mut ops: Vec<Op> = vec![];
+    let vary = |r: &mut Rng, x: &Rec| { let mut y = x.clone(); if r.chance(1, 3) { y.owner = flip_case(r, &y.owner); } y };
+    match r.below(6) {
+        0 => { let mut v = specs.clone(); shuffle(r, &mut v); for x in v { ops.push(Op::Insert(x)); } }
+        1 | 2 => {
+            // zone order, but the RRset at the very end arrives in descending RDATA order
+            let last = asc.last().unwrap().clone();
+            let (head, tail): (Vec<Rec>, Vec<Rec>) = asc.iter().cloned().partition(|x| !(lower(&x.owner) == lower(&last.owner) && x.rtype == last.rtype));
+            if r.chance(1, 2) { ops.push(Op::FromVec(head)); } else { for x in head { ops.push(Op::Insert(x)); } }
+            for x in tail.into_iter().rev() { ops.push(Op::Insert(x)); }
+        }
+        3 => {
+            // a later part first, then an internally sorted batch that sorts before the tail
+            let k = r.below(asc.len() as u64 + 1) as usize;
+            ops.push(if r.chance(1, 2) { Op::FromIter(asc[k..].to_vec()) } else { Op::Extend(asc[k..].to_vec()) });
+            ops.push(Op::Extend(asc[..k].to_vec()));
+        }
+        4 => { let mut v = asc.clone(); v.reverse(); for x in v { if r.chance(1, 3) { ops.push(Op::Extend(vec![x])); } else { ops.push(Op::Insert(x)); } } }
+        _ => {
+            let mut v = specs.clone(); shuffle(r, &mut v);
+            while !v.is_empty() { let k = r.range(1, 4).min(v.len() as u64) as usize; let batch: Vec<Rec> = v.drain(..k).collect();
+                if r.chance(1, 2) { ops.push(Op::Extend(batch)); } else { for x in batch { ops.push(Op::Insert(x)); } } }
+        }
+    }
+    // duplicates of what has been seen, the owner possibly in another case
+    for _ in 0..r.below(3) { let base = r.pick(&specs).clone(); let x = vary(r, &base); let at = r.below(ops.len() as u64 + 1) as usize; ops.insert(at, if r.chance(1, 2) { Op::Insert(x) } else { Op::Extend(vec![x]) }); }
+    // ---- run on the implementation
+    let to_z = |v: &[Rec]| -> Option<Vec<ZRec>> { let mut z = vec![]; for c in v.chunks(20) { z.extend(parse_zone(&message(c, false)).ok()?); } Some(z) };
+    let word = |z: &ZRec| format!("{} {} {} {}", hex(&wire(&labels_of(z.owner()))), z.rtype().to_int(), if matches!(z.data(), ZoneRecordData::Unknown(_)) { 1 } else { 0 }, hex(&lib_canonical(z.data())));
+    let mut case = format!("so {}", ops.len());
+    let mut arrivals: Vec<Rec> = vec![];
+    let mut want_flags = String::new();
+    let mut zops: Vec<(bool, Vec<ZRec>)> = vec![];
+    for op in &ops {
+        let (is_insert, recs): (bool, Vec<Rec>) = match op { Op::Insert(x) => (true, vec![x.clone()]), Op::Extend(v) | Op::FromVec(v) | Op::FromIter(v) => (false, v.clone()) };
+        let Some(z) = to_z(&recs) else { cx.rejected_gen += 1; return; };
+        if is_insert { case.push_str(&format!(" I {}", word(&z[0]))); want_flags.push(if arrivals.iter().any(|a| key(a) == key(&recs[0])) { '0' } else { '1' }); }
+        else { case.push_str(&format!(" E {}", z.len())); for x in &z { case.push(' '); case.push_str(&word(x)); } }
+        arrivals.extend(recs);
+        zops.push((is_insert, z));
+    }
+    out.begin(&case);
+    let ops_ref = &ops;
+    let res = catch_mut(move || {
+        let mut coll: Sorted = Sorted::new();
+        let mut flags = String::new();
+        for (i, (is_insert, z)) in zops.into_iter().enumerate() {
+            if is_insert { flags.push(if coll.insert(z.into_iter().next().unwrap()).is_ok() { '1' } else { '0' }); }
+            else { match &ops_ref[i] {
+                Op::FromVec(_) if i == 0 => { coll = Sorted::from(z); }
+                Op::FromIter(_) if i == 0 => { coll = z.into_iter().collect(); }
+                _ => coll.extend(z),
+            } }
+        }
+        (coll, flags)
+    });
+    let (coll, flags) = match res { Ok(x) => x, Err(p) => { out.case(&case, "Panic", false, "sorted_ops"); out.check(false, "panic_sorted_records", &case, &p); return; } };
+    let fin: Vec<String> = coll.iter().map(|z| format!("{}:{}:{}", hex(&wire(&labels_of(z.owner()))), z.rtype().to_int(), hex(&lib_canonical(z.data())))).collect();
+    out.case(&case, &format!("{} {}", if flags.is_empty() { "-".to_string() } else { flags.clone() }, if fin.is_empty() { "-".to_string() } else { fin.join(" ") }), true, "sorted_ops");
+    // ---- independent expectation: stable canonical sort of the arrivals, first of equals kept
+    let mut exp: Vec<&Rec> = arrivals.iter().collect();
+    exp.sort_by(|a, b| key(a).cmp(&key(b)));
+    exp.dedup_by(|b, a| key(a) == key(b));
+    let want: Vec<String> = exp.iter().map(|x| format!("{}:{}:{}", hex(&wire(&x.owner)), x.rtype, hex(&raw_canonical(&x.data)))).collect();
+    out.check(fin == want, "sorted_records_not_canonical", &case, &format!("have [{}] want [{}]", fin.join(" "), want.join(" ")));
+    out.check(flags == want_flags, "sorted_records_insert_result_wrong", &case, &format!("have {} want {}", flags, want_flags));
+    // ---- sign_sorted_rrset_in trusts the order of the collection
+    let ki = cx.keys.iter().position(|k| k.inner.is_some() && k.alg.to_int() == 15).unwrap_or(0);
+    if cx.keys[ki].inner.is_none() { return; }
+    let key_s = SigningKey::new(to_name(&apex), 256, RecKeyRef(&cx.keys[ki]));
+    let dnskey = cx.keys[ki].dnskey.clone();
+    for (n, rrset) in coll.rrsets().enumerate() {
+        if n % 2 == (idx % 2) as usize && coll.len() > 12 { continue; }
+        let c = format!("{} rrset {} type {}", case, hex(&wire(&labels_of(rrset.owner()))), rrset.rtype().to_int());
+        let signed = catch_mut(|| sign_sorted_rrset_in(&key_s, &rrset, Timestamp::from(1), Timestamp::from(1000), &mut vec![]).map_err(|_| "err"));
+        match signed {
+            Err(p) => out.check(false, "panic_sign", &c, &p),
+            Ok(Err(_)) => out.check(false, "honest_sign_fails", &c, ""),
+            Ok(Ok(rr)) => {
+                let sig: Sig = rr.data().clone();
+                let mut members: Vec<ZRec> = rrset.iter().cloned().collect();
+                let sig2 = sig.clone();
+                match catch_mut(move || { let mut buf: Vec<u8> = vec![]; sig2.signed_data(&mut buf, &mut members[..]).unwrap(); buf }) {
+                    Err(p) => out.check(false, "panic_signed_data", &c, &p),
+                    Ok(sd) => {
+                        cx.n_verify += 1;
+                        out.check(lib_verify(&sig, &dnskey, &sd) == Ok(true), "honest_verify_fails_sorted_records", &c, "an RRset taken from SortedRecords, signed by sign_sorted_rrset_in, does not verify");
+                    }
+                }
+            }
+        }
+    }
+}
 fn main() {
     let a = args();
     let mut out = Out::new(&a, "C12", 120);
@@ -1055,6 +1231,15 @@ fn main() {
     }
 
     known_answers(&mut out);
+    // label counts: only a LEFTMOST asterisk label is left out
+    for (txt, want) in [("a.*.example", 3u8), ("*.*.example", 2), ("*.example", 1), ("*", 0), ("", 0), ("**.example", 2), ("*.a.*.b", 3),
+                        ("x.*", 2), ("*.*", 1), ("*.*.*", 2), ("a.b.c.d", 4), ("*a.example", 2), ("\\*.example", 1)] {
+        let n: Nm = if txt.is_empty() { vec![] } else { txt.replace("\\", "").split('.').map(|l| l.as_bytes().to_vec()).collect() };
+        let c = format!("lc {}", hex(&wire(&n)));
+        let lc = to_name(&n).rrsig_label_count();
+        out.case(&c, &format!("{}", lc), true, "label_count_corpus");
+        out.check(lc == want, "label_count_wrong", &c, &format!("{} has {} want {}", txt, lc, want));
+    }
 
     // ---- RRsets: sign, rebuild, verify, tamper
     let n_sets = if a.thorough { 6000 } else { 300 } * a.scale;
@@ -1081,6 +1266,13 @@ fn main() {
         let mut rr = r.fork();
         if !out.wants(idx) { continue; }
         run_signer_cases(&mut out, &mut rr);
+    }
+    // ---- SortedRecords entry points in op sequences
+    for _ in 0..(if a.thorough { 6000 } else { 300 } * a.scale) {
+        idx += 1;
+        let mut rr = r.fork();
+        if !out.wants(idx) { continue; }
+        run_sorted_ops(&mut out, &mut rr, &mut cx, idx);
     }
     // ---- validity period across the wrap
     for _ in 0..(if a.thorough { 6000 } else { 400 } * a.scale) {
